@@ -21,16 +21,33 @@ import (
 
 var writerData = [][]string{{"AA", "BBB"}, {"c", "dddd"}}
 
-func scenarioC() *sched.Scenario {
+// forcedLimit, when set, fixes the limiter's answer (setup pre-queues a write without a deviation).
+var forcedLimit *bool
+
+func scenarioC(prequeued bool) *sched.Scenario {
+	name := "write-path"
+	if prequeued {
+		name = "write-path-prequeued"
+	}
 	return &sched.Scenario{
-		Name: "write-path", Files: []string{"internal/network/listener/conn.go"},
+		Name: name, Files: []string{"internal/network/listener/conn.go"},
 		Body: func(s *sched.Sched) {
 			sock := NewRecConn()
 			conn := listener.VerifNewConn(sock, 60)
+			if prequeued {
+				// writer 0's first write was rate-limited earlier and sits in the queue
+				yes := true
+				forcedLimit = &yes
+				conn.Write([]byte(writerData[0][0]))
+				forcedLimit = nil
+			}
 			for w := range writerData {
 				w := w
 				s.Go(fmt.Sprintf("W%d", w), func() {
-					for _, d := range writerData[w] {
+					for i, d := range writerData[w] {
+						if prequeued && w == 0 && i == 0 {
+							continue
+						}
 						conn.Write([]byte(d))
 					}
 				})
@@ -98,6 +115,9 @@ func installSchedLimiter() func() {
 			}
 			return false, false
 		}
+		if forcedLimit != nil {
+			return *forcedLimit, true
+		}
 		return sched.Choose(2, "rate.Limit") == 1, true
 	}
 	return func() { rate.VerifLimit = prev }
@@ -108,8 +128,9 @@ func workerC(c *core.Ctx, args []string) {
 	fmt.Sscan(args[0], &bound)
 	fmt.Sscan(args[1], &shard)
 	fmt.Sscan(args[2], &n)
+	pre := len(args) > 3 && args[3] == "pre"
 	defer installSchedLimiter()()
-	e := &sched.Explorer{Sc: scenarioC(), Bound: bound, Shard: shard, NShards: n, Deadline: c.Deadline}
+	e := &sched.Explorer{Sc: scenarioC(pre), Bound: bound, Shard: shard, NShards: n, Deadline: c.Deadline}
 	st := e.Explore()
 	c.Add("cases_write_concurrent_schedules", st.Executions)
 	for o := range st.Outcomes {
@@ -119,10 +140,10 @@ func workerC(c *core.Ctx, args []string) {
 		c.NotExhaustive(fmt.Sprintf("write-path bound %d shard %d: time cap", bound, shard))
 	}
 	if shard == 0 && bound == 0 {
-		c.Sample(map[string]interface{}{"part": "c", "scenario": "write-path", "default_schedule": st.FirstTrace})
+		c.Sample(map[string]interface{}{"part": "c", "scenario": e.Sc.Name, "default_schedule": st.FirstTrace})
 	}
 	for _, f := range st.Violations {
-		c.Violate(f.Sig, f.What+fmt.Sprintf(" | deviations at %v", f.Sites), map[string]interface{}{"part": "c", "choices": f.Choices, "bound": bound})
+		c.Violate(f.Sig, f.What+fmt.Sprintf(" | deviations at %v", f.Sites), map[string]interface{}{"part": "c", "choices": f.Choices, "bound": bound, "prequeued": pre})
 	}
 }
 
@@ -132,23 +153,25 @@ func partC(c *core.Ctx) {
 		bound = 3
 	}
 	n := core.NumWorkers()
-	for b := 0; b <= bound; b++ {
-		shards := n
-		if b < 2 {
-			shards = 1
+	for _, pre := range []string{"", "pre"} {
+		for b := 0; b <= bound; b++ {
+			shards := n
+			if b < 2 {
+				shards = 1
+			}
+			outs := c.Shard(shards, n, func(i int) []string {
+				return []string{fmt.Sprint(b), fmt.Sprint(i), fmt.Sprint(shards), pre}
+			}, 20*time.Minute)
+			c.CheckShards(outs)
 		}
-		outs := c.Shard(shards, n, func(i int) []string {
-			return []string{fmt.Sprint(b), fmt.Sprint(i), fmt.Sprint(shards)}
-		}, 20*time.Minute)
-		c.CheckShards(outs)
 	}
 	c.Set("write_concurrent_deviation_bound", bound)
 	c.Set("write_concurrent_distinct_outcomes", c.DistinctCount("write_concurrent_outcomes"))
 }
 
-func replayC(c *core.Ctx, choices []int) {
+func replayC(c *core.Ctx, choices []int, pre bool) {
 	defer installSchedLimiter()()
-	sc := scenarioC()
+	sc := scenarioC(pre)
 	sched.EnableFiles(sc.Files...)
 	x := sched.Run(choices, true, sc.Body)
 	s, w := "", ""
